@@ -51,7 +51,8 @@ def run(pid, tier, runs, modname, fname, assumptions, rule, sample_fn=None, extr
         if only and r.get('name') not in only.split(','):
             continue
         cases, st = tlc.run_sharded(r['module'], r['constants'], r.get('nshards', 16), tag=r.get('name', 'g'),
-                                    invariants=['Emit'] + list(r.get('invariants', [])),
+                                    invariants=[r.get('emit', 'Emit')] + list(r.get('invariants', [])),
+                                    init=r.get('init', 'Init'), next_=r.get('next', 'Next'),
                                     properties=r.get('properties', []), constraints=r.get('constraints', []),
                                     timeout=r.get('timeout', 3600))
         states += st['distinct']
